@@ -193,7 +193,13 @@ def attempt(job, overrides):
             try:
                 uuid.UUID(a)
             except Exception:      # noqa
-                texts = sorted(set(strmap.values()))
+                texts = set(strmap.values())
+                for o_ in real.values():
+                    for fld_ in ('_id', '_name'):
+                        t_ = getattr(o_, fld_, None)
+                        if isinstance(t_, str) and _is_canon(t_):
+                            texts.add(t_)
+                texts = sorted(texts)
                 cands[p] = texts + [t.upper() for t in texts] + ['{%s}' % t for t in texts]
     def argname(a):
         ks = [k for k, v in real.items() if v is a]
